@@ -56,6 +56,17 @@ def jobs(tier):
         js.append(l2_job("C03.pollfail.%s" % nm, "l2/c03_pollfail.c", defines={"PERR": err},
                          symbolic=["quit code (uint8)", "errno left by callbacks (int)"],
                          bounds="the poll call fails once with errno %d" % err, unwind=13))
+    for act in (1, 2, 3, 4):
+        for desc in ((0, 1) if (tier != "quick" or act in (1, 2)) else (0,)):
+            js.append(l2_job("C03.samebatch.act%d.d%d" % (act, desc), "l2/c03_samebatch.c", defines={"ACT": act, "DESC": desc},
+                             symbolic=["quit code (uint8)", "errno left by callbacks (int)"],
+                             bounds="two modules' descriptor events in one batch, first handler %s the other" %
+                                    ("pauses", "stops", "deregisters", "deregisters the source of")[act - 1], unwind=13))
+    for resub in (0, 1):
+        for nq in ((2,) if tier == "quick" else (2, 3)):
+            js.append(l2_job("C03.oneshot.queued%d.resub%d" % (nq, resub), "l2/c03_oneshot_queue.c", defines={"RESUB": resub, "NQ": nq},
+                             symbolic=["errno left by callbacks (int)"],
+                             bounds="%d matching messages queued before the one-shot subscriber is served%s" % (nq, ", handler subscribes again" if resub else ""), unwind=13))
     js.append(l2_job("C03.oneshot.regex", "l2/c03_oneshot_rx.c", symbolic=["errno left by callbacks (int)"],
                      bounds="one-shot subscription on a regular expression, two matching publishes", unwind=13))
     return js
